@@ -4,6 +4,7 @@ import (
 	"fmt"
 	"math"
 	"math/big"
+	"runtime/debug"
 
 	"github.com/twpayne/go-geom/xy"
 
@@ -47,6 +48,10 @@ func c20Check(c *fw.Ctx, pts [][2]float64, stride int, thr float64, class string
 		return
 	}
 	c.Eval(2)
+	hi := idxs
+	if !holdAndRecheck(c, "c20-indexes", "SimplifyFlatCoords indexes", func() string { return fmt.Sprint(hi) }) {
+		return
+	}
 	c.Count("class_" + class)
 	for i := range before {
 		if math.Float64bits(before[i]) != math.Float64bits(flat[i]) {
@@ -244,6 +249,68 @@ func c20Random(c *fw.Ctx, idx int) {
 }
 
 // all sequences of 0..6 points on a 3x3 grid x thresholds {0, 0.5, 1, 1.5}
+// (iii) bursts: thousands of calls in a row on a fixed set of lines - mostly short
+// ones, now and then a long one - with the garbage collector off, so that any
+// scratch memory the function recycles (a pool, a generation-stamped mask)
+// really is the same memory from call to call.  Every call must return what the
+// first call on that line returned (which the other classes judge).
+func c20Burst(c *fw.Ctx, idx int) {
+	r := c.R
+	type line struct {
+		flat   []float64
+		stride int
+		thr    float64
+		first  string
+	}
+	var lines []line
+	mk := func(n int) line {
+		stride := r.Range(2, 4)
+		flat := make([]float64, 0, n*stride)
+		x, y := float64(r.Range(-20, 20)), float64(r.Range(-20, 20))
+		for k := 0; k < n; k++ {
+			x += float64(r.Range(0, 3))
+			y += float64(r.Range(-3, 3))
+			flat = append(flat, x, y)
+			for j := 2; j < stride; j++ {
+				flat = append(flat, float64(k))
+			}
+		}
+		return line{flat: flat, stride: stride, thr: float64(r.Range(0, 6))}
+	}
+	for i := 0; i < 30; i++ {
+		lines = append(lines, mk(r.Range(3, 12)))
+	}
+	for i := 0; i < 12; i++ {
+		lines = append(lines, mk(r.Range(60, 200)))
+	}
+	c.SetInput(map[string]any{"burst": "42 lines (30 of 3..12 points, 12 of 60..200 points), 4000 calls in random order, one in 24 on a long line"})
+	for i := range lines {
+		l := &lines[i]
+		if c.Guard("panic", func() { l.first = fmt.Sprint(xy.SimplifyFlatCoords(l.flat, l.thr, l.stride)) }) {
+			return
+		}
+	}
+	old := debug.SetGCPercent(-1)
+	defer debug.SetGCPercent(old)
+	for i := 0; i < 4000; i++ {
+		k := r.Intn(30)
+		if r.Chance(1, 24) {
+			k = 30 + r.Intn(12)
+		}
+		l := &lines[k]
+		var got string
+		if c.Guard("panic", func() { got = fmt.Sprint(xy.SimplifyFlatCoords(l.flat, l.thr, l.stride)) }) {
+			return
+		}
+		if got != l.first {
+			c.Fail("history-dependent", "call %d of a burst: simplifying a line of %d points (threshold %g) gave %s, the first call on the same line gave %s", i, len(l.flat)/l.stride, l.thr, clipStr(got, 200), clipStr(l.first, 200))
+			return
+		}
+	}
+	c.Eval(4000)
+	c.Count("bursts_of_4000_calls")
+}
+
 func c20Exhaustive(c *fw.Ctx, idx int) {
 	n := 0
 	base := 0
@@ -274,6 +341,7 @@ func init() {
 		Rule:   "SimplifyFlatCoords on sequences of 0..200 integer-grid points (random walks, closed loops, repeated points, collinear runs, constant-amplitude zig-zags, spikes next to an end), stride 2..5 with arbitrary extra ordinates (NaN included), thresholds {0, an exact distance of the input, integers, random, huge}: indexes strictly increasing incl. first and last; each dropped point's exact rational distance to the segment between its nearest retained neighbours <= threshold*(1+2^-50)+2^-46*max|ordinate|; with threshold 0 dropped points lie exactly on that segment; a second pass drops nothing; result identical to the XY-only input. distinct_nontrivial = distinct (class, n, kept, stride)",
 		Assume: []string{"math/big exact"},
 		Classes: []fw.Class{
+			{Name: "bursts", Quick: 64, Thorough: 2000, Chunk: 4, Run: c20Burst},
 			{Name: "random", Quick: 150000, Thorough: 3000000, Run: c20Random},
 			{Name: "exhaustive-3x3", Quick: 1 + 9 + 81 + 729 + 6561, Thorough: exhN, Run: c20Exhaustive, Exhaustive: "every sequence of 0..4 (quick) / 0..6 (thorough) points on a 3x3 grid x thresholds {0, 0.5, 1, 1.5}"},
 		},
